@@ -1618,3 +1618,79 @@ Example ex_get :
   get_all [70; 1] [] [[mkT 1 2 3]; [mkT 4 5 6]; [mkT 7 8 9]] [0; 0; 5]
   = Some [[mkT 1 2 3; mkT 4 5 6]; [mkT 7 8 9]].
 Proof. vm_compute. reflexivity. Qed.
+
+(* ------------------------------------------------------------------ *)
+(* word packing of an AND batch of ANY length is lossless               *)
+
+Lemma pack_length : forall words bs, length (pack bs words) = words.
+Proof. induction words as [|k IH]; intro bs; simpl; [reflexivity|]. rewrite IH. reflexivity. Qed.
+
+Lemma skipn_skipn {A} (a b : nat) (l : list A) : skipn a (skipn b l) = skipn (b + a) l.
+Proof. rewrite skipn_add. reflexivity. Qed.
+
+Lemma pack_nth : forall words bs w, w < words ->
+  nth w (pack bs words) 0%N = bits_to_N (firstn 64 (skipn (64 * w) bs)).
+Proof.
+  induction words as [|k IH]; intros bs w H; [lia|].
+  destruct w as [|w]; cbn [pack nth]; [rewrite Nat.mul_0_r; reflexivity|].
+  rewrite IH by lia. rewrite skipn_skipn. do 3 f_equal. lia.
+Qed.
+
+(* the gates packed into word w: 64 for every word but the last, and
+   n - 64*(words-1) for the last — between 1 and 64, and 64 when n is a
+   positive multiple of 64 *)
+Lemma word_gate_count (bs : list bool) w : w < words_for (length bs) ->
+  length (firstn 64 (skipn (64 * w) bs)) =
+  if S w =? words_for (length bs) then length bs - 64 * w else 64.
+Proof.
+  intro H. rewrite firstn_length, skipn_length.
+  destruct (Nat.eqb_spec (S w) (words_for (length bs))) as [E|NE]; divlia.
+Qed.
+
+Lemma last_word_count n : 0 < n ->
+  let cnt := n - 64 * (words_for n - 1) in
+  1 <= cnt <= 64 /\ (n mod 64 = 0 -> cnt = 64).
+Proof.
+  intros Hn cnt. unfold cnt. pose proof (Nat.div_mod n 64 ltac:(lia)) as DM.
+  pose proof (Nat.mod_upper_bound n 64 ltac:(lia)) as MB.
+  split; [divlia|]. intro Z. rewrite Z in DM.
+  assert (E : words_for n = n / 64).
+  { unfold words_for. rewrite DM at 1. replace (64 * (n / 64) + 0 + 63) with (63 + (n / 64) * 64) by lia.
+    rewrite Nat.div_add by lia. reflexivity. }
+  rewrite E. lia.
+Qed.
+
+(* the literal transcription of the Go loop computes the same words *)
+Lemma pack_go_eq bs words : pack_go bs words = pack bs words.
+Proof.
+  apply (nth_ext _ _ 0%N 0%N).
+  - unfold pack_go. rewrite map_length, seq_length, pack_length. reflexivity.
+  - intros w Hw. unfold pack_go in *. rewrite map_length, seq_length in Hw.
+    rewrite (nth_map_seq _ words w 0%N Hw), pack_nth by assumption.
+    apply N.bits_inj. intro k. rewrite <- (N2Nat.id k). rewrite !testbit_bits_to_N.
+    set (j := N.to_nat k).
+    destruct (lt_dec j 64) as [Hj|Hj].
+    + rewrite (nth_map_seq (fun ofs => (64 * w + ofs <? length bs) && nth (64 * w + ofs) bs false) 64 j false Hj).
+      rewrite nth_firstn_lt by assumption. rewrite nth_skipn.
+      destruct (Nat.ltb_spec (64 * w + j) (length bs)) as [Hl|Hl]; [reflexivity|].
+      rewrite nth_overflow by lia. reflexivity.
+    + rewrite !nth_overflow; [reflexivity| |].
+      * rewrite firstn_length. lia.
+      * rewrite map_length, seq_length. lia.
+Qed.
+
+(* packing the n share bits of a batch into ceil(n/64) words and reading the
+   n positions back with bit() is the identity, for every n *)
+Theorem pack_unpack_id (bs : list bool) :
+  unpack (length bs) (pack bs (words_for (length bs))) = bs /\
+  unpack (length bs) (pack_go bs (words_for (length bs))) = bs /\
+  length (pack bs (words_for (length bs))) = words_for (length bs).
+Proof.
+  assert (E : unpack (length bs) (pack bs (words_for (length bs))) = bs).
+  { apply (nth_ext _ _ false false); unfold unpack.
+    - rewrite map_length, seq_length. reflexivity.
+    - intros i Hi. rewrite map_length, seq_length in Hi.
+      rewrite (nth_map_seq _ (length bs) i false Hi).
+      apply bit_pack. apply (words_for_idx i (length bs) Hi). }
+  split; [exact E|]. split; [rewrite pack_go_eq; exact E|apply pack_length].
+Qed.
